@@ -2,7 +2,7 @@
 //   h_codec --meta            dump the compiled schema's metadata (see meta_dump.hpp) and exit
 //   h_codec                   line protocol: one case per line on stdin, one result line each
 // Case vocabulary (documented in coq/Codec/READY.md):
-//   ENC <msgspec>             build through the generic API, Message::encode(f8String&)
+//   ENC <msgspec>             build through the generic API, Message::encode(f8String&); a second object is encoded with encode(char**): both must agree
 //   ENC2 <msgspec>            encode the same object twice
 //   DEC <mode> <hex>          Message::factory on the bytes; mode = s|p (strict/permissive) [n = no_chksum]
 //   REENC <mode> <hex>        factory, then encode the decoded object
@@ -11,7 +11,7 @@
 //   RENDER <fnum> <hex>       Field<T>(text).print() for the field's class -> OK <hex>
 //   CLONE|COPY|MOVE <msgspec> (C11) clone / copy_legal / move_legal into a fresh deep message; dump + encode
 // msgspec = <msgtype>;<hdr fields>;<body fields>;<trl fields>
-//   fields = [field{,field}]   field = <fnum>=<hex|->[ '[' {'(' fields ')'} ']' ]
+//   fields = [field{,field}]   field = <fnum>=[~]<hex|->[ '[' {'(' fields ')'} ']' ]   (~ = value handed over as std::string with its length)
 //   (fields are inserted in the order written; '[' ']' = find_add_group, each '(' ')' = create_group(true) + add)
 #include "meta_dump.hpp"
 #if __has_include("utest_types.hpp")
@@ -49,6 +49,10 @@ struct Parser
 		while (isdigit(peek())) v = v * 10 + (s[i++] - '0');
 		return v;
 	}
+	// a value written "~<hex>" is handed to the field as a length-carrying std::string (the
+	// Field<f8String>(const f8String&) constructor: NUL bytes survive); plain "<hex>" goes through
+	// the generic create_field(fnum, const char *) and is cut at the first NUL
+	bool tilde() { if (peek() == '~') { ++i; return true; } return false; }
 	std::string hexval()
 	{
 		if (peek() == '-') { ++i; return std::string(); }
@@ -58,6 +62,21 @@ struct Parser
 	}
 };
 
+// Field<data, F> == Field<f8String, F>: the public constructor taking (const f8String&) for the
+// data-typed fields of FIX 4.2 / 4.4
+template<unsigned short F> BaseField *mk_str(const std::string& v) { return new Field<f8String, F>(v); }
+BaseField *make_string_field(unsigned fnum, const std::string& v)
+{
+	switch (fnum)
+	{
+#define F8CASE(n) case n: return mk_str<n>(v);
+	F8CASE(89) F8CASE(91) F8CASE(96) F8CASE(213) F8CASE(349) F8CASE(351) F8CASE(353) F8CASE(355) F8CASE(357)
+	F8CASE(359) F8CASE(361) F8CASE(363) F8CASE(365) F8CASE(446) F8CASE(619) F8CASE(622)
+#undef F8CASE
+	default: throw std::runtime_error("spec: ~ value for a tag without string-constructor dispatch");
+	}
+}
+
 // fields of one part / element, inserted in the order written
 void fill(Parser& p, MessageBase *mb, GroupBase *owner_gb)
 {
@@ -66,8 +85,9 @@ void fill(Parser& p, MessageBase *mb, GroupBase *owner_gb)
 		const unsigned fnum(p.number());
 		if (p.peek() != '=') throw std::runtime_error("spec: = expected");
 		++p.i;
+		const bool raw(p.tilde());
 		const std::string val(p.hexval());
-		BaseField *bf(mctx().create_field(static_cast<unsigned short>(fnum), val.c_str()));
+		BaseField *bf(raw ? make_string_field(fnum, val) : mctx().create_field(static_cast<unsigned short>(fnum), val.c_str()));
 		if (!bf) throw std::runtime_error("spec: no such field");
 		mb->add_field(bf);
 		if (p.peek() == '[')
@@ -166,6 +186,15 @@ std::string enc(Message *msg)
 	return tohex(out);
 }
 
+// Message::encode(char **) -- the overload the session uses -- on a caller's buffer
+std::string enc_ptr(Message *msg)
+{
+	std::vector<char> buf(FIX8_MAX_MSG_LENGTH + HEADER_CALC_OFFSET + 64);
+	char *ptr(buf.data());
+	const size_t n(msg->encode(&ptr));
+	return tohex(std::string(ptr, n));
+}
+
 // run one stage, mapping exceptions to the canonical vocabulary
 template<typename F>
 bool stage(std::ostream& os, F f)
@@ -217,8 +246,18 @@ void run_case(const std::string& line, std::ostream& os)
 	{
 		std::unique_ptr<Message> msg;
 		std::string h1, h2;
-		if (stage(os, [&] { msg.reset(build(a1)); h1 = enc(msg.get()); if (op == "ENC2") h2 = enc(msg.get()); }))
-			os << "OK " << h1 << (op == "ENC2" ? " " + h2 : std::string());
+		// ENC: both overloads, each on its own freshly built object, must give the same bytes
+		std::string hp;
+		if (stage(os, [&] {
+				msg.reset(build(a1)); h1 = enc(msg.get());
+				if (op == "ENC2") h2 = enc(msg.get());
+				else { std::unique_ptr<Message> m2(build(a1)); hp = enc_ptr(m2.get()); } }))
+		{
+			if (op == "ENC" && hp != h1)
+				os << "OK " << h1 << " OVERLOADS-DIFFER " << hp;
+			else
+				os << "OK " << h1 << (op == "ENC2" ? " " + h2 : std::string());
+		}
 	}
 	else if (op == "DEC" || op == "REENC")
 	{
